@@ -231,6 +231,28 @@ static size_t pick_caps(size_t n, size_t *caps) {
                 continue;                                                                                          \
             }                                                                                                      \
             size_t allocs_ = last_vm.allocs;                                                                       \
+            /* second placement for the capacities n, n-1 and n/2: the output starts 8 bytes off (its 16-byte           \
+             * alignment flips) and is followed by three sentinel elements instead of the guard page */              \
+            if (room_ == c && (c == (size_t)(n) || c + 1 == (size_t)(n) || c == (size_t)(n) / 2)) {                 \
+                uint64_t *wide_ = out_buf(c + 4);                                                                  \
+                out = wide_ + 1;                                                                                   \
+                size_t r2_ = 0;                                                                                    \
+                snprintf(what_, sizeof what_, "capacity=%zu of n=%zu, output 8 bytes off its flush position", c, (size_t)(n)); \
+                if (LIBCALL(api, what_, r2_ = (DECODE_EXPR))) {                                                    \
+                    size_t at2_ = 0;                                                                               \
+                    if (wide_[0] != 0xABABABABABABABABULL || out[c] != 0xABABABABABABABABULL || out[c + 1] != 0xABABABABABABABABULL || out[c + 2] != 0xABABABABABABABABULL) { \
+                        AFAIL(api, "write_past_capacity", "%s: %s: an element next to the %zu-element output was overwritten (before %d, after %d %d)", cur_desc, what_, c, wide_[0] != 0xABABABABABABABABULL, \
+                              out[c] != 0xABABABABABABABABULL, out[c + 1] != 0xABABABABABABABABULL);                \
+                    } else if (r2_ != r || cmp_u64(out, (expect), r2_ > c ? c : r2_, &at2_)) {                      \
+                        AFAIL(api, "wrong_prefix", "%s: %s returned %zu (flush placement returned %zu)", cur_desc, what_, r2_, r); \
+                    }                                                                                              \
+                }                                                                                                  \
+                out = out_buf(room_);                                                                              \
+                snprintf(what_, sizeof what_, "capacity=%zu of n=%zu", c, (size_t)(n));                            \
+                if (!LIBCALL(api, what_, r = (DECODE_EXPR))) {                                                     \
+                    continue;                                                                                      \
+                }                                                                                                  \
+            }                                                                                                      \
             for (size_t k_ = 0; k_ <= allocs_ && k_ <= 6; k_++) {                                                  \
                 if (k_) {                                                                                          \
                     /* the same decode with its k-th allocation failing: the capacity still holds */               \
